@@ -265,6 +265,24 @@ def replay(pid, path):
             return 1
         print("replay of %s: property %s holds on the current tree" % (path, pid))
         return 0
+    eng = rp.get("engine")
+    if eng in ("kgraph", "kvalue", "khist"):
+        from .main import Result
+        res = Result()
+        if eng == "kgraph":
+            engine_kgraph.run(pid, "quick", data.get("seed", 0), res, only=[rp["case"]])
+        elif eng == "kvalue":
+            engine_kvalue.run(pid, "quick", data.get("seed", 0), res, only=[dict(prog=rp["prog"], args=rp["args"])])
+        else:
+            engine_khist.run(pid, "quick", data.get("seed", 0), res, only=[rp["case"]])
+        bad = [h for h in res.hits if h["prop"] == pid]
+        if bad:
+            print("VIOLATION property=%s replay=%s" % (pid, path))
+            for b in bad[:5]:
+                print("  " + b["desc"][:300])
+            return 1
+        print("replay of %s: property %s holds on the current tree" % (path, pid))
+        return 0
     print("replay kind not executable: %s" % rp.get("kind"))
     return 2
 
